@@ -23,6 +23,8 @@ def replay(behs, name):
     return c.run_harness_parallel(binp, ['-mode', 'segapi'], behs, name=name, procs=12, timeout=1500)
 
 
+if c.replay and 'behaviour' not in json.load(open(c.replay)):
+    c.replay = None   # a race found by the concurrent leg: re-running the whole check is the replay
 if c.replay:
     obj = json.load(open(c.replay))
     res = replay([obj['behaviour']], 'replay')
@@ -65,15 +67,91 @@ for v in res['violations']:
         c.inconclusive('violation %s not reproduced on a second run' % v['signature'])
     c.report(v['signature'], v['detail'], {'behaviour': b, 'harness': 'stor/segapi'})
 
+# ---- 2b. design at the granularity of every atomic operation (incRef fast/slow path, DecRef with the pending
+# unpinned releases, performDelete, closeIfIdle, the deleting scan), all interleavings ----
+SR = 'SPECIFICATION Spec\nCONSTANTS\n  Holders = {h1, h2}\n  Peekers = {k1}\n  Reclaimers = {r1}\n  Deleters = %s\n  None = None\nINVARIANTS\n  OpenWhileHeld\n  NoResurrection\n  CountCoversHolders\n  NoLeak\n  TokNonNegative\n'
+ra = tlc.run('SegmentRef.tla', 'sr.cfg', tag='c14a', files={'sr.cfg': SR % ('{}' if c.quick else '{d1}')}, timeout=2400, workers=10)
+if not ra.ok:
+    c.inconclusive('TLC on SegmentRef.tla: violated=%s error=%s timeout=%s\n%s' % (ra.violated, ra.error, ra.timed_out, ra.output[-1500:]))
+c.log('TLC SegmentRef (atomic level): %d distinct states, invariants hold (%.0fs)' % (ra.distinct, ra.wall))
+
+# ---- 3. code -> spec under real concurrency: holders vs housekeeping on one TSDB, trace validated by SegHoldTrace.tla ----
+HCFG = 'SPECIFICATION TraceSpec\nCONSTANTS\n  Clients = {"q"}\n  Segs = {"s"}\nINVARIANTS\n  HeldIsOpen\nPOSTCONDITION TraceAccepted\n'
+hd = tlc.run('SegHold.tla', 'h.cfg', tag='c14h', files={'h.cfg': 'SPECIFICATION HSpec\nCONSTANTS\n  Clients = {"q1", "q2"}\n  Segs = {"s1", "s2"}\nINVARIANTS\n  HeldIsOpen\n'}, timeout=600)
+if not hd.ok:
+    c.inconclusive('TLC on SegHold.tla: %s %s' % (hd.violated, hd.error))
+
+
+def stress(i, millis):
+    tp = os.path.join(core.BUILD, 'out', 'c14-seg-%d-%d.ndjson' % (os.getpid(), i))
+    r = c.run_harness(binp, ['-mode', 'segstress', '-cfg', json.dumps(dict(trace=tp, millis=millis, segs=6))], timeout=600, env={'VERIF_SEED': str(c.seed * 100 + i)})
+    lines = open(tp).read().splitlines() if os.path.exists(tp) else []
+    if os.path.exists(tp):
+        os.remove(tp)
+    return r, lines
+
+
+def trace_verdict(lines):
+    t = tlc.run('SegHoldTrace.tla', 't.cfg', tag='c14t', files={'t.cfg': HCFG, 'trace.ndjson': '\n'.join(lines) + '\n'}, workers=1, timeout=900)
+    if t.ok:
+        return None
+    if t.timed_out or (t.error and 'TraceAccepted' not in t.output and not t.violated):
+        c.inconclusive('trace validation did not run: %s\n%s' % (t.error, t.output[-1200:]))
+    k = max(t.depth - 1, 0)
+    ev = json.loads(lines[k]) if k < len(lines) else {}
+    return ('segment-%s-while-held' % {'SegClosed': 'closed', 'SegDeleted': 'deleted', 'HoldBegin': 'handed-out-after-delete'}.get(ev.get('event'), 'trace-rejected'),
+            'event %d of %d rejected by SegHoldTrace.tla: %s' % (k + 1, len(lines), lines[k] if k < len(lines) else 'end'), lines[: k + 1])
+
+
+runs, millis = (2, 2500) if c.quick else (10, 6000)
+straces, sevents, sstats, found = 0, 0, {}, {}
+for i in range(runs):
+    r, lines = stress(i, millis)
+    if r['inconclusive']:
+        c.inconclusive('; '.join(r['inconclusive'][:3]))
+    for k2, v2 in r['stats'].items():
+        sstats[k2] = sstats.get(k2, 0) + v2
+    for vv in r['violations']:
+        found.setdefault(vv['signature'], (vv['detail'], lines[-60:]))
+    if len(lines) < 200:
+        c.inconclusive('segment stress run %d produced only %d events' % (i, len(lines)))
+    tv = trace_verdict(lines)
+    sevents += len(lines)
+    if tv:
+        found.setdefault(tv[0], (tv[1], tv[2][-60:]))
+    else:
+        straces += 1
+    if i == 0:
+        # binding self-test: a close event moved inside a hold must be rejected
+        hb = [j for j, x in enumerate(lines) if '"HoldBegin"' in x]
+        if hb:
+            seg = json.loads(lines[hb[len(hb) // 2]])['seg']
+            mut = lines[: hb[len(hb) // 2] + 1] + [json.dumps({'event': 'SegClosed', 'seg': seg})] + lines[hb[len(hb) // 2] + 1:]
+            if trace_verdict(mut) is None:
+                c.inconclusive('binding self-test failed: a close inside a hold was accepted')
+# a race found once must show up again within a few more runs before it is reported
+for sig, (detail, ctx) in found.items():
+    again = False
+    for j in range(6):
+        r, lines = stress(100 + j, millis)
+        tv = trace_verdict(lines)
+        if any(v['signature'] == sig for v in r['violations']) or (tv and tv[0] == sig):
+            again = True
+            break
+    if not again:
+        c.inconclusive('concurrency violation %s seen once but not again in 6 further runs: %s' % (sig, detail))
+    c.report(sig, detail, {'trace_tail': ctx, 'harness': 'stor/segstress'})
+c.log('concurrent runs: %d traces accepted, %d events, %s' % (straces, sevents, sstats))
+
 nontriv = core.nontrivial_count(allb, lambda st: any(x['last'].get('op') == 'select' for x in st[1:]) and
                                 any(x['last'].get('op') in ('idle', 'retention', 'forced') for x in st[1:]) and
                                 any(x['last'].get('op') == 'release' for x in st[1:]))
-c.cov.update(states=r.distinct, transitions=r.generated, traces_validated_against_impl=0,
+c.cov.update(states=r.distinct + hd.distinct + ra.distinct, transitions=r.generated + hd.generated + ra.generated, atomic_level_states=ra.distinct, traces_validated_against_impl=straces, trace_events=sevents, stress_stats=sstats,
              behaviours_replayed=res['behaviours'], steps_replayed=res['steps'], graph_edges=len(edges), graph_edges_uncovered=unc,
              simulated_behaviours=len(sb), exhaustive=(unc == 0), evaluations=res['behaviours'], distinct_nontrivial=nontriv,
              rule='API-level behaviours of SegmentAPI.tla (2 logical clients; select with/without reopen, release, idle reclaim, retention, forced cleanup, scan, snapshot, metrics) = edge cover of the TLC graph (2 segments, %d ops) + -simulate (3 segments, 16 ops), replayed through the public TSDB interface; (refCount, open, mustBeDeleted, directory, listed) of every segment and the view of every holder compared after every call; non-trivial = has a select, a release and a housekeeping step' % gops,
              harness_stats=res['stats'], action_coverage=r.coverage, tlc_constants=dict(nsegs=nsegs, max_handles=mh, max_ops=ops),
              samples=[[x['last'] for x in allb[len(allb) // 3][1:]], [x['last'] for x in allb[-1][1:]]])
-c.assumptions += ['API calls are atomic steps here (single goroutine); interleavings inside the calls are the subject of SegmentRef.tla',
+c.assumptions += ['replay leg: API calls are atomic steps (single goroutine); interleavings inside the calls are exercised by the concurrent leg (real goroutines: 3 queriers, a stats peeker, idle reclaimer, rotation scans, retention/forced delete, file snapshots, metrics) whose trace must be a behaviour of SegHold.tla - schedules are those the Go scheduler produces, not enumerated',
                   'fake TSTable (records Close), real series index and directories, mock clock']
 c.finish()
